@@ -1,8 +1,10 @@
 package matchprop
 
 import (
-	"pgregory.net/rapid"
+	"math"
 	"reflect"
+
+	"pgregory.net/rapid"
 )
 
 // Generators shared by the random, server and in-flight parts.
@@ -648,5 +650,112 @@ func genSrvScenario(t *rapid.T) *SrvScenario {
 	c := genCfg(t)
 	sc := resolveSrv(rapid.SliceOfN(rapid.Custom(c.rawSrvOp), 1, 14).Draw(t, "ops"))
 	sprinkleStray(t, reflect.ValueOf(sc))
+	sprinkleDress(t, sc)
 	return sc
+}
+
+// dressing (dress.go) -------------------------------------------------------------------
+
+var (
+	// 0 TARGET_DEFINED, 1 ON_CHANGE, 2 SAMPLE; a few numbers the enum does not name (proto3 enums are open)
+	dressModes     = []int32{0, 1, 2, 0, 1, 2, 1, 2, 1, 2, 3, -1, 100}
+	dressIntervals = []uint64{1, 1e6, 1e9, 1e9, 1e10, 1e10, 3e10, 6e10, 36e11, math.MaxUint64}
+	dressSleeps    = []int64{1e6, 1e9, 11e9, 31e9, 61e9, 61e9, 36e11, 9e13}
+	dressTargets   = []string{"a", "b", Glob, "x"}
+	dressEncodings = []int32{0, 1, 2, 3, 4, 2, 4, 9}
+	dressQos       = []uint32{0, 10, 46, 63, math.MaxUint32}
+	dressNames     = []string{"openconfig-interfaces", "a", "b", ""}
+	dressExtKinds  = []string{"empty", "registered", "master", "snapshot", "range", "commit", "depth", "depth", "config"}
+	dressExtNums   = []int64{0, 1, 1, 2, 3, 1 << 40, -1}
+	dressStyles    = []string{"mixed", "mixed", "mixed", "two", "two", "uniform", "one-odd", "list-only"}
+)
+
+func drawSubDress(t *rapid.T) SubDress {
+	d := SubDress{Mode: rapid.SampledFrom(dressModes).Draw(t, "sub-mode")}
+	if rapid.Bool().Draw(t, "with-sample") {
+		d.Sample = rapid.SampledFrom(dressIntervals).Draw(t, "sample-interval")
+	}
+	if rapid.Bool().Draw(t, "with-heartbeat") {
+		d.Heartbeat = rapid.SampledFrom(dressIntervals).Draw(t, "heartbeat-interval")
+	}
+	d.Suppress = one(t, 3, "suppress-redundant")
+	if one(t, 8, "path-target") {
+		d.PathTarget = rapid.SampledFrom(dressTargets).Draw(t, "sub-path-target")
+	}
+	return d
+}
+
+// dressList gives the fields of l that the server does not implement arbitrary
+// values, per subscription independently:
+//
+//	mixed      every subscription draws its own dressing
+//	two        two dressings are drawn, every subscription takes one of them
+//	uniform    one dressing for all subscriptions
+//	one-odd    one subscription is dressed, the others are plain
+//	list-only  only the fields of the list / the request
+func dressList(t *rapid.T, l *SubList) {
+	style := rapid.SampledFrom(dressStyles).Draw(t, "dress-style")
+	if style != "list-only" && len(l.Subs) > 0 {
+		a, b := drawSubDress(t), drawSubDress(t)
+		odd := rapid.IntRange(0, len(l.Subs)-1).Draw(t, "odd-sub")
+		l.SubDress = make([]SubDress, len(l.Subs))
+		for i := range l.Subs {
+			switch style {
+			case "mixed":
+				l.SubDress[i] = drawSubDress(t)
+			case "two":
+				if l.SubDress[i] = a; rapid.Bool().Draw(t, "second") {
+					l.SubDress[i] = b
+				}
+			case "uniform":
+				l.SubDress[i] = a
+			case "one-odd":
+				if i == odd {
+					l.SubDress[i] = a
+				}
+			}
+		}
+	}
+	if style == "list-only" || rapid.Bool().Draw(t, "list-fields") {
+		d := &ListDress{}
+		if d.HasQos = rapid.Bool().Draw(t, "with-qos"); d.HasQos {
+			d.Qos = rapid.SampledFrom(dressQos).Draw(t, "qos")
+		}
+		d.AllowAgg = rapid.Bool().Draw(t, "allow-aggregation")
+		d.Encoding = rapid.SampledFrom(dressEncodings).Draw(t, "encoding")
+		for i, n := 0, rapid.IntRange(0, 2).Draw(t, "models"); i < n; i++ {
+			d.Models = append(d.Models, ModelDress{Name: rapid.SampledFrom(dressNames).Draw(t, "model"),
+				Org: rapid.SampledFrom(dressNames).Draw(t, "org"), Version: rapid.SampledFrom([]string{"", "1.0.0", "a"}).Draw(t, "version")})
+		}
+		l.Dress = d
+	}
+	if style == "list-only" || one(t, 3, "extensions") {
+		if l.Dress == nil {
+			l.Dress = &ListDress{}
+		}
+		for i, n := 0, rapid.IntRange(1, 2).Draw(t, "exts"); i < n; i++ {
+			l.Dress.Ext = append(l.Dress.Ext, ExtDress{Kind: rapid.SampledFrom(dressExtKinds).Draw(t, "ext"),
+				N: rapid.SampledFrom(dressExtNums).Draw(t, "ext-n"), M: rapid.SampledFrom([]int64{0, 1e9}).Draw(t, "ext-m"),
+				S: rapid.SampledFrom([]string{"", "a", "x"}).Draw(t, "ext-s")})
+		}
+	}
+}
+
+// sprinkleDress dresses, in every second scenario, four of five lists of the
+// finished scenario (derived lists included), lets every third op be followed
+// by a virtual sleep, and draws whether all updates carry one value.
+func sprinkleDress(t *rapid.T, sc *SrvScenario) {
+	if !one(t, 2, "dress-scenario") {
+		return
+	}
+	sc.SameValue = rapid.Bool().Draw(t, "same-value")
+	for i := range sc.Ops {
+		op := &sc.Ops[i]
+		if op.Kind == "sub" && op.List != nil && !one(t, 5, "plain-list") {
+			dressList(t, op.List)
+		}
+		if one(t, 3, "sleep") {
+			op.Sleep = rapid.SampledFrom(dressSleeps).Draw(t, "sleep")
+		}
+	}
 }
